@@ -4,7 +4,10 @@ import (
 	"bufio"
 	"fmt"
 	"os"
+	"runtime"
 	"strconv"
+	"sync/atomic"
+	"time"
 )
 
 // splitmix64: every random choice of the harness derives from one state
@@ -66,7 +69,40 @@ func newOut(path string) (*out, error) {
 	}
 	return &out{f: f, w: bufio.NewWriterSize(f, 1<<20)}, nil
 }
-func (o *out) printf(format string, a ...interface{}) { fmt.Fprintf(o.w, format, a...) }
+func (o *out) printf(format string, a ...interface{}) { touch(); fmt.Fprintf(o.w, format, a...) }
+
+// progress watchdog: every observation line written (and every explicit touch()) counts as progress. A harness
+// command that makes none for stallLimit() seconds is blocked inside a call of the library that does not return;
+// it reports that and exits with a failure status instead of hanging the check.
+var lastProgress int64
+
+func touch() { atomic.StoreInt64(&lastProgress, time.Now().UnixNano()) }
+
+func stallLimit() time.Duration {
+	if s := os.Getenv("VERIF_STALL_S"); s != "" {
+		if n, err := strconv.Atoi(s); err == nil && n > 0 {
+			return time.Duration(n) * time.Second
+		}
+	}
+	return 600 * time.Second
+}
+
+func startWatchdog(cmd string) {
+	touch()
+	limit := stallLimit()
+	go func() {
+		for {
+			time.Sleep(5 * time.Second)
+			idle := time.Duration(time.Now().UnixNano() - atomic.LoadInt64(&lastProgress))
+			if idle > limit {
+				buf := make([]byte, 1<<16)
+				n := runtime.Stack(buf, true)
+				fmt.Printf("HANG: harness command %s made no progress for %d s: a call into the library did not return\n%s\n", cmd, int(idle.Seconds()), buf[:n])
+				os.Exit(3)
+			}
+		}
+	}()
+}
 func (o *out) close() error {
 	if err := o.w.Flush(); err != nil {
 		return err
